@@ -15,6 +15,7 @@ from dateparser.parser import _check_strict_parsing, _parse_absolute, _parse_nos
 from dateparser.timezone_parser import pop_tz_offset_from_string
 from dateparser.utils import (
     _get_missing_parts,
+    apply_timezone,
     apply_timezone_from_settings,
     get_timezone_from_tz_string,
     set_correct_day_from_settings,
@@ -168,9 +169,19 @@ def get_date_from_timestamp(date_string, settings, negative=False):
         millis = int(match.group(2) or 0)
         micros = int(match.group(3) or 0)
         date_obj = datetime.fromtimestamp(seconds, timezone).replace(
-            microsecond=millis * 1000 + micros, tzinfo=None
+            microsecond=millis * 1000 + micros
         )
-        date_obj = apply_timezone_from_settings(date_obj, settings)
+        if settings is None:
+            return date_obj.replace(tzinfo=None)
+
+        # the instant is known: keep its own UTC offset instead of localizing the wall
+        # clock again, which picks the wrong offset in the repeated hour of a DST change
+        if settings.TO_TIMEZONE:
+            date_obj = apply_timezone(date_obj, settings.TO_TIMEZONE)
+
+        if settings.RETURN_AS_TIMEZONE_AWARE is not True:
+            date_obj = date_obj.replace(tzinfo=None)
+
         return date_obj
 
 
